@@ -61,10 +61,20 @@ fn main() {
             let seed: u64 = args[4].parse().expect("seed");
             let mut rng = Rng::new(seed);
             let mut cases: Vec<Case> = Vec::new();
-            let info = ops::gen(prop, &mut rng, tier, &mut |c| cases.push(c)).unwrap_or_else(|| {
-                eprintln!("unknown property {prop}");
-                std::process::exit(2)
-            });
+            // generators call the real code too (to pick database peptides etc.): a panic there must not
+            // lose the cases generated so far — they are executed and compared as usual
+            let gen_result = std::panic::catch_unwind(std::panic::AssertUnwindSafe(|| {
+                ops::gen(prop, &mut rng, tier, &mut |c| cases.push(c))
+            }));
+            let generator_panicked = gen_result.is_err();
+            let info = match gen_result {
+                Ok(Some(i)) => i,
+                Ok(None) => {
+                    eprintln!("unknown property {prop}");
+                    std::process::exit(2)
+                }
+                Err(_) => ops::Info { rule: "generator panicked inside the code under test; cases generated before the panic were run", serial: true },
+            };
             let requests: Vec<String> = cases.iter().map(|c| c.request.clone()).collect();
             let replies = exec_all(&requests, info.serial);
             let mut f = std::io::BufWriter::new(std::fs::File::create(&args[5]).expect("out"));
@@ -101,6 +111,7 @@ fn main() {
                 "rule": info.rule,
                 "distribution": tags,
                 "impl_panics": panics,
+                "generator_panicked": generator_panicked,
                 "samples": samples,
             });
             std::fs::write(format!("{}.stats.json", args[5]), serde_json::to_string_pretty(&stats).unwrap()).unwrap();
